@@ -1,6 +1,7 @@
 package state
 
 import (
+	"context"
 	"strings"
 
 	"github.com/ProtonMail/gluon/db"
@@ -127,6 +128,21 @@ func VerifC03Commands() {
 		}
 	}
 
+	// optionally another session on A has just expunged one message: committed, but this session's view still shows
+	// it (the update is queued).  A MOVE issued on the stale view must not resurrect the expunged message.
+	stale := -1
+	if vsymParam("stale") == 1 && nA > 0 {
+		stale = vsymChoice("staleWhich", nA)
+		other := w.newState(3)
+		if err := other.Select(ctxFor(other), "A", func(m *Mailbox) error { return nil }); err != nil {
+			panic(err)
+		}
+		err := stateDBWrite(ctxFor(other), other, func(ctx context.Context, tx db.Transaction) ([]Update, error) {
+			return other.actionRemoveMessagesFromMailbox(ctx, tx, []db.MessageIDPair{pool[stale]}, db.MailboxIDPair{InternalID: a.ID, RemoteID: a.Remote})
+		})
+		vsymAssert(err == nil, "EXPUNGE by the other session succeeds")
+	}
+
 	// message set: "1", "1:*" or "*" (resolution itself is C16's subject)
 	var set []command.SeqRange
 	var sel []int // positions in A
@@ -155,7 +171,21 @@ func VerifC03Commands() {
 	if lean {
 		nOps = 3
 	}
-	op := vsymChoice("op", nOps)
+	op := 6 // the stale-view dimension is decided for MOVE
+	if stale < 0 {
+		op = vsymChoice("op", nOps)
+	}
+	viewA := append([]c3Row(nil), refA...) // what the session's view shows (positions of the message set)
+	if stale >= 0 {
+		// reference: the expunged message is gone from A and is not part of what the command moves
+		var keep []c3Row
+		for _, r := range refA {
+			if r.msg != stale {
+				keep = append(keep, r)
+			}
+		}
+		refA = keep
+	}
 	switch op {
 	case 0, 1, 2: // STORE +FLAGS / -FLAGS / FLAGS
 		action := []command.StoreAction{command.StoreActionAddFlags, command.StoreActionRemFlags, command.StoreActionSetFlags}[op]
@@ -216,8 +246,13 @@ func VerifC03Commands() {
 			_, err = mboxA.Move(ctx, set, "B")
 		}
 		if err == nil {
+			moved := map[int]bool{}
 			for _, p := range sel {
-				msg := refA[p].msg
+				msg := viewA[p].msg
+				if msg == stale {
+					continue // expunged by the other session: not in A any more, must not reappear in B
+				}
+				moved[msg] = true
 				var keep []c3Row
 				for _, r := range refB { // a message is in a mailbox at most once: re-adding gives it a fresh UID at the end
 					if r.msg != msg {
@@ -228,14 +263,8 @@ func VerifC03Commands() {
 			}
 			if op == 6 {
 				var keep []c3Row
-				for i, r := range refA {
-					in := false
-					for _, p := range sel {
-						if p == i {
-							in = true
-						}
-					}
-					if !in {
+				for _, r := range refA {
+					if !moved[r.msg] {
 						keep = append(keep, r)
 					}
 				}
